@@ -39,6 +39,16 @@ fn gen_case(rng: &mut Rng) -> Case {
         }
     };
     let mut sc = Scenario::new(doc.bytes);
+    if rng.chance(1, 25) {
+        // upstream closes inside a tag
+        let lts: Vec<usize> = sc.doc.iter().enumerate().filter(|(_, b)| **b == b'<').map(|(i, _)| i).collect();
+        if !lts.is_empty() {
+            let p = rng.pick(&lts) + rng.range(1, 12) as usize;
+            if p < sc.doc.len() {
+                sc.doc.truncate(p);
+            }
+        }
+    }
     sc.strict = rng.chance(1, 3);
     sc.esi = rng.chance(1, 6);
     sc.handlers = match rng.below(4) {
@@ -115,7 +125,14 @@ impl Property for C06 {
             (Outcome::Ok, Outcome::Ok) => {}
             (Outcome::Err(x, _), Outcome::Err(y, _)) if x.tag() == y.tag() => {}
             (x, y) => {
-                return Ok(Err(Fail::new("C06.events", format!("result under H: {x:?}, under H u O: {y:?}; O={:?}", case.extra_handlers))));
+                let detail = format!("result under H: {x:?}, under H u O: {y:?}; O={:?}", case.extra_handlers);
+                // known finding (same defect as KF-C03-3): the tag scanner raises ParsingAmbiguity
+                // for a tag that never completes, the lexer does not
+                let amb_vs_ok = matches!((x, y), (Outcome::Err(ErrKind::Ambiguity, _), Outcome::Ok) | (Outcome::Ok, Outcome::Err(ErrKind::Ambiguity, _)));
+                if amb_vs_ok && sc.strict && super::c03::unfinished_tag_would_be_ambiguous(&String::from_utf8_lossy(&sc.doc).into_owned().into_bytes()) {
+                    return Ok(Err(Fail::known("C06.events", detail, "ambiguity_raised_by_unfinished_tag_scan_mode_only")));
+                }
+                return Ok(Err(Fail::new("C06.events", detail)));
             }
         }
         let (ea, _) = merged_events(&a, |_| true);
